@@ -33,9 +33,9 @@ RULE = ("case = one configuration (differential) or one (configuration, crash po
 ASSUMPTIONS = ["Linux /proc", "the harness puts /venv/bin on PATH so that the plug-in runner script is found", "population methods get an explicit seed option"]
 CASE_TIMEOUT = 240
 SHARD_TIMEOUT = {"quick": 900, "thorough": 7200}
-REQUIRED = {"quick": {"external_runs": 25, "trace_pairs_compared": 8, "kill_runs": 8, "optimizer_process_exit_runs": 5, "optimizer_error_without_message_runs": 3, "evaluator_exception_runs": 3, "process_table_checked": 25, "messages_counted": 100, "messages_beyond_one_pipe_buffer": 7, "configurations_compared_at_the_pipe": 14, "explicit_start_vector_pairs": 3, "pairs_with_path_options": 4, "external_runs_with_an_evaluation_beyond_the_polling_interval": 3, "__nontrivial__": 20},
-            "thorough": {"external_runs": 300, "trace_pairs_compared": 80, "kill_runs": 120, "optimizer_process_exit_runs": 80, "optimizer_error_without_message_runs": 50, "evaluator_exception_runs": 50, "process_table_checked": 300, "messages_counted": 2000, "messages_beyond_one_pipe_buffer": 70, "configurations_compared_at_the_pipe": 140, "pairs_with_path_options": 40, "external_runs_with_an_evaluation_beyond_the_polling_interval": 25, "__nontrivial__": 250}}
-N = {"quick": {"diff": 27, "kill": 3, "exc": 2, "exit": 2}, "thorough": {"diff": 270, "kill": 30, "exc": 20, "exit": 20}}
+REQUIRED = {"quick": {"external_runs": 25, "trace_pairs_compared": 8, "kill_runs": 8, "optimizer_process_exit_runs": 5, "optimizer_error_without_message_runs": 3, "nested_pairs_compared": 2, "evaluator_exception_runs": 2, "process_table_checked": 25, "messages_counted": 100, "messages_beyond_one_pipe_buffer": 7, "configurations_compared_at_the_pipe": 14, "explicit_start_vector_pairs": 3, "pairs_with_path_options": 4, "external_runs_with_an_evaluation_beyond_the_polling_interval": 2, "__nontrivial__": 20},
+            "thorough": {"external_runs": 300, "trace_pairs_compared": 80, "kill_runs": 120, "optimizer_process_exit_runs": 80, "optimizer_error_without_message_runs": 50, "nested_pairs_compared": 12, "evaluator_exception_runs": 50, "process_table_checked": 300, "messages_counted": 2000, "messages_beyond_one_pipe_buffer": 70, "configurations_compared_at_the_pipe": 140, "pairs_with_path_options": 40, "external_runs_with_an_evaluation_beyond_the_polling_interval": 25, "__nontrivial__": 250}}
+N = {"quick": {"diff": 27, "kill": 3, "exc": 2, "exit": 2, "nested": 3}, "thorough": {"diff": 270, "kill": 30, "exc": 20, "exit": 20, "nested": 20}}
 MAX_ROUNDS_AFTER_DEATH = 6
 
 
@@ -50,6 +50,8 @@ def cases(tier, seed):
     for i in range(n["exc"]):
         for k in range(0, 3 if tier == "quick" else 6):
             yield {"mode": "exc", "i": i, "k": k}
+    for i in range(n["nested"]):
+        yield {"mode": "nested", "i": i}
     for i in range(n["exit"]):
         for k in range(-1, 4 if tier == "quick" else 8):
             # the optimizer process ends by itself with an error status instead of sending its k-th message (-1: at start-up),
@@ -381,6 +383,67 @@ sys.exit(ropt_plugin_optimizer())
 """
 
 
+def _nested_case(case, obs, rng):
+    """A nested plan with the same method at both levels, in-process and through the external plug-in: while the inner optimization
+    runs, the optimizer process of the outer one is alive and waiting for its answer."""
+    from ropt.plan import OptimizerContext, Plan  # noqa: PLC0415
+    from ropt.results import FunctionResults  # noqa: PLC0415
+
+    V, R = 3, int(rng.integers(1, 3))
+    method = str(rng.choice(["nelder-mead", "powell", "slsqp"]))
+    spec = {"V": V, "R": R, "P": 2, "rweights": [1.0] * R, "oweights": [1.0], "n_con": 0, "x0": rng.uniform(-0.3, 0.3, size=V).tolist(), "seed": int(rng.integers(1, 999)),
+            "magnitudes": [0.01], "samplers": [{"method": "norm"}], "nan": [], "rmin": R,
+            "ensemble": {"kind": "quad", "a": (rng.normal(size=(R, 1, V)) * 0.3).tolist(), "b": rng.normal(size=(R, 1)).tolist(), "q": [1.0], "c": (rng.normal(size=(R, V)) * 0.3).tolist()}}
+    case["spec"] = spec
+    tag = {"method": method, "mode": "nested"}
+
+    def run(external):
+        ev = ens.RecordingEvaluator(spec)
+        ctx = OptimizerContext(evaluator=ev, plugin_manager=ens.plugin_manager())
+        outer, inner = Plan(ctx), Plan(ctx)
+        m = ("external/" if external else "") + method
+        si = inner.add_step("optimizer")
+        tracker = inner.add_handler("tracker", sources={si})
+        icfg = ens.make_config_dict(dict(spec, mask=[False, True, False], optimizer={"method": m, "max_functions": 3}))
+        codes = []
+
+        def inner_fn(plan, variables):
+            plan.set(tracker, "results", None)
+            codes.append(int(plan.run_step(si, config=icfg, variables=variables)))
+            res = plan.get(tracker, "results")
+            return res if isinstance(res, FunctionResults) else None
+
+        inner.add_function(inner_fn)
+        so = outer.add_step("optimizer")
+        ocfg = ens.make_config_dict(dict(spec, mask=[True, False, True], optimizer={"method": m, "max_functions": 3}))
+        import warnings  # noqa: PLC0415
+
+        try:
+            with warnings.catch_warnings():
+                warnings.simplefilter("ignore")
+                code, exc = int(outer.run_step(so, config=ocfg, nested_optimization=inner)), None
+        except Exception as e:  # noqa: BLE001
+            code, exc = None, e
+        return {"code": code, "exc": exc, "inner_codes": codes, "calls": [c.variables.copy() for c in ev.calls]}
+
+    a = run(False)
+    b = run(True)
+    obs.count("external_runs")
+    obs.count("nested_pairs_compared")
+    obs.nontrivial(case)
+    _check_process_table(obs, "after a nested run returned", tag)
+    if (a["exc"] is None) != (b["exc"] is None):
+        obs.violation("exception_only_in_one_mode", in_process=repr(a["exc"]), external=repr(b["exc"]), **tag)
+        return
+    if a["code"] != b["code"] or a["inner_codes"] != b["inner_codes"]:
+        obs.violation("exit_code_differs", in_process=[a["code"], a["inner_codes"]], external=[b["code"], b["inner_codes"]], **tag)
+        return
+    if len(a["calls"]) != len(b["calls"]) or any(x.shape != y.shape or not np.array_equal(x, y) for x, y in zip(a["calls"], b["calls"])):
+        obs.violation("trace_differs_between_in_process_and_external", calls=[len(a["calls"]), len(b["calls"])], **tag)
+        return
+    obs.sample({"method": method, "nested": True, "evaluator_calls": len(b["calls"]), "exit_code": b["code"], "inner_runs": len(b["inner_codes"])})
+
+
 def _exit_case(case, obs, spec, tag):
     import shutil  # noqa: PLC0415
     import sys  # noqa: PLC0415
@@ -580,6 +643,8 @@ def run_case(case, obs):
         return
     if mode == "exit":
         return _exit_case(case, obs, spec, tag)
+    if mode == "nested":
+        return _nested_case(case, obs, rng)
     # evaluator raises at evaluation k
     class UserError(RuntimeError):
         pass
